@@ -74,8 +74,7 @@ def run(res, tier, seed):
         res.violation({"property": "C15", "kind": "check-error", "theorem_or_correspondence": "race build", "detail": out[-2000:]}, nofail=True)
         return
     n = 12 if tier == "quick" else 120
-    os.makedirs(os.path.join(vlib.BUILD, "cases"), exist_ok=True)
-    cf = os.path.join(vlib.BUILD, "cases", "C15.case")
+    cf = vlib.casefile("C15")
     with open(cf, "w") as f:
         for i in range(n):
             f.write("case w%d\nworkload %d %d %d\n" % (i, seed * 1000 + i, 30 + (i * 7) % 50, 3 + i % 4))
